@@ -53,6 +53,7 @@ pub mod c10;
 pub mod c14;
 pub mod c15;
 pub mod c16;
+pub mod c17;
 pub mod c19;
 
 pub fn all() -> Vec<Prog> {
@@ -66,6 +67,7 @@ pub fn all() -> Vec<Prog> {
     v.extend(c14::all());
     v.extend(c15::all());
     v.extend(c16::all());
+    v.extend(c17::all());
     v.extend(c19::all());
     v
 }
